@@ -112,8 +112,10 @@ def repo_scripts():
 
 
 def all_programs(with_repo=True):
+    from . import zoo
     p = dict(POOL)
     p.update(HISTORY)
+    p.update(zoo.programs())
     if with_repo:
         p.update(repo_scripts())
     return p
